@@ -108,6 +108,12 @@ static int mc_expired(void) {
     }
     return 0;
 }
+// deadline check on every (mask+1)-th call of this process (a per-process counter: an index-based test such as (i & 63) == 0 would only
+// ever fire in worker 0 when the index is also used to deal cases to 16 workers)
+static inline int mc_tick(unsigned mask) {
+    static unsigned n;
+    return ((++n & mask) == 0) && mc_expired();
+}
 static void *mc_shalloc(size_t n) {
     void *p = mmap(NULL, n ? n : 1, PROT_READ | PROT_WRITE, MAP_SHARED | MAP_ANONYMOUS, -1, 0);
     if (p == MAP_FAILED) {
